@@ -482,6 +482,16 @@ def _directed():
         return [C(0, [], D(i, 0, N, default=5, bounds=b)), C(1, [0], D(i, 0, N, bounds=b)),
                 C(2, [0], D(i, 0, N, bounds=(0, 10))), C(3, [1], D(i, 0, N, bounds=b, doc='x')), C(4, [2, 1], D(i, 0, N))]
     case(ident)
+
+    # search continues past an identical value: own bounds is the parent's object, the grandparent's differs
+    # (overridden by identity three levels up; the merged configuration is the parent's, so creation succeeds)
+    def ident3(i):
+        b = i.new((0, 10))
+        d = i.new(2.5)
+        return [C(0, [], D(i, 0, N, default=d, bounds=(0, 20))), C(1, [0], D(i, 0, N, bounds=b)),
+                C(2, [1], D(i, 0, N, bounds=b)), C(3, [1], D(i, 0, N, bounds=b, default=d)),
+                C(4, [], D(i, 0, N, default=d, bounds=b)), C(5, [2, 4], D(i, 0, N, default=d)), C(6, [3, 0], D(i, 0, N, doc='x'))]
+    case(ident3)
     # identity vs equality again: (1, 1) == (True, True), yet `incmax is True` is False, so the bound turns exclusive
     case(lambda i: [C(0, [], D(i, 0, N, default=10, bounds=(0, 10))), C(1, [0], D(i, 0, N, inclusive_bounds=(1, 1))),
                     C(2, [0], D(i, 0, N, inclusive_bounds=(True, True))), C(3, [0], D(i, 0, N, inclusive_bounds=(1, 1), default=9))])
